@@ -74,8 +74,9 @@ REGISTRY = {
             {"name": "TestC05Supervisor", "shards": 8, "shards_thorough": 16},
             {"name": "TestC05Table", "shards": 1},
             {"name": "TestC05KnownF6", "shards": 1},
+            {"name": "TestC05Scripts", "shards": 8, "shards_thorough": 16},
         ],
-        "require": {"in-window-commit": 2000, "stale-event": 1000, "late-commit": 300, "generation-after-close": 200, "coalesced": 5, "multi-generation": 500},
+        "require": {"in-window-commit": 2000, "stale-event": 1000, "late-commit": 300, "generation-after-close": 200, "coalesced": 5, "multi-generation": 500, "c05b:coalesced": 100, "c05b:connect-racing-close": 50, "c05b:deselect": 300, "c05b:dwell-expired": 50, "c05b:role:active": 250, "c05b:role:passive": 250},
     },
     "C08": {
         "level": "exploration",
